@@ -18,7 +18,7 @@ from sim.gen import specs
 ID = "C11"
 LEVEL = "exploration"
 TIERS = {
-    "quick": {"segments": 480, "wall": 150, "min_budget": 90},
+    "quick": {"segments": 400, "wall": 130, "min_budget": 90},
     "thorough": {"segments": 16000, "wall": 1500, "min_budget": 600},
 }
 SEGMENT_TIMEOUT = 600
